@@ -180,7 +180,7 @@ func (dlv *Delivery) ValidateWithContext(ctx context.Context) error {
 	return tax.ValidateStructWithContext(ctx, dlv,
 		validation.Field(&dlv.Regime),
 		validation.Field(&dlv.Addons),
-		validation.Field(&dlv.Tags),
+		validation.Field(&dlv.Tags.List, tax.TagsIn(dlv.supportedTags()...)),
 		validation.Field(&dlv.UUID),
 		validation.Field(&dlv.Type,
 			validation.Required,
@@ -228,6 +228,17 @@ func (dlv *Delivery) ValidateWithContext(ctx context.Context) error {
 		validation.Field(&dlv.Meta),
 		validation.Field(&dlv.Attachments),
 	)
+}
+
+func (dlv *Delivery) supportedTags() []cbc.Key {
+	var ts *tax.TagSet
+	if r := dlv.RegimeDef(); r != nil {
+		ts = ts.Merge(tax.TagSetForSchema(r.Tags, ShortSchemaDelivery))
+	}
+	for _, a := range dlv.AddonDefs() {
+		ts = ts.Merge(tax.TagSetForSchema(a.Tags, ShortSchemaDelivery))
+	}
+	return ts.Keys()
 }
 
 // validationContext builds a context with all the validators that the delivery might
